@@ -143,6 +143,8 @@ inductive Want where
   | nothing
 
 def wantPrimary (req : List String) : Want :=
+  -- a word that is not in the vocabulary makes the whole input an error
+  if (annot req "unknownword").isSome then .reject else
   match annotText req "kw", annotTexts req "args", annot req "ctx" with
   | some kw, some args, some ctx =>
     match Spec.expectedToken (String.ofList kw) args with
